@@ -1,4 +1,4 @@
-"""./check selftest [-j N] [--only PID]
+"""./check selftest [-j N] [--only PID] [--match LABEL-SUBSTRING]
 
 Tests the checkers both ways on scratch copies of the repository (outside
 /repo and /verif, removed afterwards):
@@ -95,6 +95,7 @@ def _verdict(case, d):
 def main(argv):
     jobs = 16
     only = None
+    match = None
     i = 0
     while i < len(argv):
         if argv[i] == "-j":
@@ -103,9 +104,14 @@ def main(argv):
         elif argv[i] == "--only":
             only = argv[i + 1].upper()
             i += 1
+        elif argv[i] == "--match":  # substring of the case label
+            match = argv[i + 1]
+            i += 1
         i += 1
     cases = [c for c in CASES if only is None or only in (
         c[0] if isinstance(c[0], (list, tuple)) else [c[0]])]
+    if match:
+        cases = [c for c in cases if match in c[1]]
     bad = 0
     counts = {}
     with cf.ThreadPoolExecutor(max_workers=jobs) as ex:
